@@ -115,6 +115,14 @@ def extract(repo="/repo", force=False, warm=True, quiet=False):
     facts_path = os.path.join(CACHE, "facts-%s.json" % key)
     parser_path = os.path.join(CACHE, "parser-%s.rs" % key)
     meta = {"tree_hash": key, "cached": True, "extract_s": 0.0}
+    # fast path without the extraction lock: both files are put in place
+    # atomically (facts first, parser last), so their presence means complete
+    if not force and os.path.exists(parser_path) and os.path.exists(facts_path):
+        try:
+            os.utime(facts_path, None)      # LRU for _prune_cache
+        except OSError:
+            pass
+        return facts_path, parser_path, meta
     lock = open(os.path.join(CACHE, "lock"), "w")
     fcntl.flock(lock, fcntl.LOCK_EX)
     try:
@@ -167,7 +175,7 @@ def extract(repo="/repo", force=False, warm=True, quiet=False):
         lock.close()
 
 
-def _prune_cache(keep, max_files=12):
+def _prune_cache(keep, max_files=48):
     fs = sorted(glob.glob(os.path.join(CACHE, "facts-*.json")),
                 key=os.path.getmtime)
     for p in fs[:-max_files]:
